@@ -1922,8 +1922,17 @@ func (cs *CachingScheduleTracker) GenerateCachingSchedule(maxMemory int) [][]uin
 
 	cachingSch := make([][]uint64, len(cs.numAdds))
 
-	cache := make([]ttlInfo, 0, maxMemory)
-	createHeights := make(map[uint64]int, maxMemory)
+	// The cache never holds more than all the ttls so don't allocate more than
+	// that even if the given maxMemory is bigger.
+	cacheSize := 0
+	for _, ttls := range cs.ttls {
+		cacheSize += len(ttls)
+	}
+	if maxMemory < cacheSize {
+		cacheSize = maxMemory
+	}
+	cache := make([]ttlInfo, 0, cacheSize)
+	createHeights := make(map[uint64]int, cacheSize)
 	for i, ttls := range cs.ttls {
 
 		// Check the cache for spent positions.
